@@ -10,7 +10,7 @@ copy_input_buffer in EbResourceCoordinationProcess.c for overlay pictures).  Eve
                  displayed picture's input header (dts from pts), and no later store in the packetization path replaces
                  the application pointer with something else
 """
-from engine.facts import pstr, strip, callee_name, subexprs, last_field, root_of, AnalysisBroken
+from engine.facts import fields_in, pstr, strip, callee_name, subexprs, last_field, root_of, AnalysisBroken
 from engine.classes import Classes
 
 PID = 'C03'
@@ -135,3 +135,34 @@ def run(P, rep, tier):
                        'stored from %s, not from the submitted picture\'s %s' % (pstr(rhs), src))
             rep.ob('C03.PACKET', 'packet:%s@%s' % (fld, g.name), ok, g.loc(ev), 'packet %s: %s' % (fld, why))
     rep.floor('C03.PACKET', 3)
+
+    # ---------------- PTSWIDTH: timestamps are signed 64-bit application values; wherever the library computes with them (the
+    # show-existing queue is *ordered* by pts) the computation must stay in that type.  A timestamp expression that is cast,
+    # or stored into a local, of a narrower or unsigned type changes the order of some pts pairs (differences >= 2^31,
+    # negative values), and the packet popped for a show-existing frame then carries another picture's pts / dts.
+    PTS = HDR + 'pts'
+    WIDE = ('int64_t', 'long', 'long long', 'const int64_t', 'const long', 'const long long', '__int64_t')
+    npts = 0
+    for g in P.fns:
+        if g.lib != 'Encoder' or g.nocfg:
+            continue
+        for ev in g.events(('st', 'decl', 'ret', 'call')):
+            e = ev.get('e')
+            if e is None or PTS not in fields_in(e):
+                continue
+            # plain header-to-header copies of the field are not computations
+            if ev['k'] == 'st' and e[0] == 'a' and e[1] == '=' and strip(e[3])[0] == 'm' and last_field(strip(e[2])) in (HDR + 'pts', HDR + 'dts'):
+                continue
+            npts += 1
+            bad = None
+            for x in subexprs(e):
+                if x[0] == 'k' and PTS in fields_in(x[2]) and strip(x[2])[0] != 'm' and x[1].strip() not in WIDE and not x[1].rstrip().endswith('*'):
+                    bad = 'a timestamp expression (%s) is cast to %s' % (pstr(x[2])[:60], x[1])
+                elif x[0] == 'k' and strip(x[2])[0] == 'm' and strip(x[2])[1] == PTS and x[1].strip() not in WIDE:
+                    bad = 'a timestamp is cast to %s' % x[1]
+            if ev['k'] == 'decl' and ev.get('t', '').strip() not in WIDE and not ev.get('t', '').rstrip().endswith('*'):
+                bad = 'a timestamp is stored in the local %s of type %s' % (ev['n'], ev['t'])
+            rep.ob('C03.PTSWIDTH', '%s/%s@%s' % (g.name, ev['k'], pstr(e)[:50]), bad is None, g.loc(ev),
+                   'timestamp computation stays in the signed 64-bit type' if bad is None else
+                   bad + ': narrower / unsigned arithmetic reorders some timestamp pairs (differences >= 2^31, negative pts)')
+    rep.floor('C03.PTSWIDTH', 1)
